@@ -186,6 +186,19 @@ func locate(doc string, s, e int) place {
 					set("raw-html", x.Segments.At(0).Start, x)
 				}
 			}
+		case *gast.AutoLink:
+			// an autolink has no positions of its own: it is the text `<label>` in the source
+			lab := "<" + string(x.Label(v.src)) + ">"
+			for from := 0; ; {
+				i := strings.Index(doc[from:], lab)
+				if i < 0 {
+					break
+				}
+				if st := from + i; st < e && s < st+len(lab) {
+					set("raw-html", st, x)
+				}
+				from += i + 1
+			}
 		case *gast.Text:
 			if hit(x.Segment) {
 				if p := x.Parent(); p != nil && p.Kind() == gast.KindCodeSpan {
@@ -357,9 +370,21 @@ func (in *docInfo) plain(c cand) bool {
 }
 
 // openBracket: the position of the innermost `[` still open at the end of prefix for a reader
-// that skips backslash escapes and code spans (a backtick run up to the next run of the same
-// length, or to the end of the line) and pairs brackets; -1 when none is open
+// that skips backslash escapes and code spans (a backtick run up to the last n backticks of the
+// next run of n or more, or to the end of the line: finding ld-code-span-closed-inside-longer-run)
+// and pairs brackets; -1 when none is open
 func openBracket(prefix string) int {
+	lb, _ := openBracketRule(prefix, false)
+	return lb
+}
+
+// openBracketLoose: openBracket for a reader whose code spans end at the LAST n backticks of the
+// first backtick string of n or more (what a loop does that steps one byte at a time through a
+// longer string), and that forgets its brackets after a `](destination…)`; diverged: some code
+// span ended inside a longer string, i.e. this reader's code spans differ from CommonMark's
+func openBracketLoose(prefix string) (lb int, diverged bool) { return openBracketRule(prefix, true) }
+
+func openBracketRule(prefix string, forget bool) (lb int, diverged bool) {
 	var stack []int
 	for i := 0; i < len(prefix); i++ {
 		switch prefix[i] {
@@ -373,6 +398,7 @@ func openBracket(prefix string) int {
 				n++
 			}
 			j := i + n
+			closed := false
 			for j < len(prefix) {
 				if prefix[j] != '`' {
 					j++
@@ -382,27 +408,83 @@ func openBracket(prefix string) int {
 				for j+m < len(prefix) && prefix[j+m] == '`' {
 					m++
 				}
-				if m == n {
+				if m >= n {
+					if m > n {
+						diverged = true
+					}
+					j += m // the closing string is the last n backticks of the run
+					closed = true
 					break
 				}
 				j += m
 			}
-			if j >= len(prefix) {
-				return -1 // the rest of the line is inside the code span
+			if !closed {
+				return -1, diverged // the rest of the line is inside the code span
 			}
-			i = j + n - 1
+			i = j - 1
 		case '[':
 			stack = append(stack, i)
 		case ']':
 			if len(stack) > 0 {
 				stack = stack[:len(stack)-1]
+				if !forget {
+					continue
+				}
+				if sp, _, ok := anchorDest(prefix, i); ok || strings.HasPrefix(prefix[i:], "]()") {
+					stack = stack[:0]
+					if ok {
+						i = linkEndAfterDest(prefix, sp.e) - 1
+					}
+				}
 			}
 		}
 	}
 	if len(stack) == 0 {
-		return -1
+		return -1, diverged
 	}
-	return stack[len(stack)-1]
+	return stack[len(stack)-1], diverged
+}
+
+// linkEndAfterDest: where a reader that has taken line[..destEnd] for the destination of an
+// inline link goes on: after the `>` of an angle destination, an optional title in quotes or
+// parentheses (backslash escapes skipped) and the closing `)`; destEnd itself when that is not
+// what follows
+func linkEndAfterDest(line string, destEnd int) int {
+	i := destEnd
+	if i < len(line) && line[i] == '>' {
+		i++
+	}
+	skip := func() {
+		for i < len(line) && (line[i] == ' ' || line[i] == '\t') {
+			i++
+		}
+	}
+	skip()
+	if i < len(line) && line[i] == ')' {
+		return i + 1
+	}
+	if i >= len(line) || !(line[i] == '"' || line[i] == '\'' || line[i] == '(') {
+		return destEnd
+	}
+	closer := line[i]
+	if closer == '(' {
+		closer = ')'
+	}
+	for i++; i < len(line); i++ {
+		if line[i] == '\\' && i+1 < len(line) && isPunctByte(line[i+1]) {
+			i++
+			continue
+		}
+		if line[i] == closer {
+			i++
+			skip()
+			if i < len(line) && line[i] == ')' {
+				return i + 1
+			}
+			return destEnd
+		}
+	}
+	return destEnd
 }
 
 // escapedBytes: per byte of line, whether a backslash escapes it
@@ -541,8 +623,8 @@ func defLine(line string) bool {
 // instructions, CDATA up to their closer; raw text elements up to their closing tag) takes for
 // HTML. HTML is looked for only while no `[` is open (brackets are counted outside HTML and
 // code spans, backslash escapes skipped, all brackets forgotten after a `](destination`); a
-// backtick run outside HTML opens a code span up to the next run of its length or the end
-// of the line; code blocks are ignored here. This is a statement of the
+// backtick run of n outside HTML opens a code span up to the last n backticks of the next run
+// of n or more, or the end of the line; code blocks are ignored here. This is a statement of the
 // CAUSE of several classes; whether it predicts the real code is measured by the precision
 // self-test, it is never taken on trust.
 func scanModel(doc string) ([]bool, []string) {
@@ -672,7 +754,8 @@ func scanModel(doc string) ([]bool, []string) {
 					for j+m < len(line) && line[j+m] == '`' {
 						m++
 					}
-					if m == n {
+					if m >= n { // the last n backticks of a longer run close as well (ld-code-span-closed-inside-longer-run)
+						j += m - n
 						break
 					}
 					j += m
@@ -686,7 +769,7 @@ func scanModel(doc string) ([]bool, []string) {
 					if sp, _, ok := anchorDest(line, i); ok || strings.HasPrefix(line[i:], "]()") {
 						depth = 0
 						if ok {
-							i = sp.e - 1
+							i = linkEndAfterDest(line, sp.e) - 1
 						}
 					}
 				}
@@ -983,7 +1066,7 @@ func init() {
 			},
 			gen: genHTMLBlock},
 		{id: "ld-inline-html-inside-brackets", minimal: "[<!--](a)-->", clause: "only-destinations-change",
-			// goldmark: the span lies in inline raw HTML (a comment, a tag). Scanner: it looks for
+			// goldmark: the span lies in inline raw HTML (a comment, a tag) or in an autolink. Scanner: it looks for
 			// HTML only while its bracket stack is empty; here a `[` is open before the `<`.
 			effects: []string{"rewrote:raw-html"},
 			predict: func(in *docInfo) []span {
@@ -1029,6 +1112,28 @@ func init() {
 				})
 			},
 			gen: genCodeSpanHTML},
+		{id: "ld-code-span-closed-inside-longer-run", minimal: "` ``[](a)`", clause: "only-destinations-change",
+			// cause: inside a code span of n backticks the loop of scanInlineLinks advances one byte at a
+			// time over a backtick string longer than n and takes its last n backticks for the closing
+			// string (CommonMark: only a string of exactly n closes). From there on the scanner's code
+			// spans are out of phase with goldmark's: link syntax that goldmark reads as part of a code
+			// span (or as text after one) is reached with an open bracket and rewritten.
+			effects: []string{"rewrote:code-span", "rewrote:text", "rewrote:link-syntax"},
+			predict: func(in *docInfo) []span {
+				return filterCands(in, func(c cand) bool {
+					if c.def || c.whole || !in.inlineLine(c) || !rewritable(c.raw) || !(c.at.role == "code-span" || c.at.role == "text" || c.at.role == "link-syntax") {
+						return false
+					}
+					// the scanner resumes after what it skipped as HTML
+					q := c.anchor
+					for q > c.ls && !in.skippedAt(q-1) {
+						q--
+					}
+					lb, diverged := openBracketLoose(in.doc[q:c.anchor])
+					return lb >= 0 && diverged && !in.anySkipped(q, c.e)
+				})
+			},
+			gen: genLooseTicks},
 		{id: "ld-paren-title-with-paren", minimal: "[a]:a (()", clause: "only-destinations-change",
 			// a parenthesised title with an unescaped `(`: not a title in CommonMark, so the whole
 			// is text; parseTitle accepts it
